@@ -116,7 +116,13 @@ class Conn:
     def feed(self, msg):
         if self.lost or self.tr.disconnecting:
             return
-        self.hand.dataReceived(wire(msg))
+        try:
+            self.hand.dataReceived(wire(msg))
+        except Exception as e:  # noqa
+            # what twisted does with an exception out of dataReceived: log it
+            # and drop the connection
+            self.world.obs.append(('handler-exception', type(e).__name__, str(e)[:120]))
+            self.lose()
 
     def new_messages(self):
         buf = self.tr.value()
@@ -166,7 +172,38 @@ class PipeWorld:
     # -------------------------------------------------------------- seams
     def _patch(self):
         w = self
-        chronicle.append = lambda entry: w.chron.append(dict(entry))
+        real_append = _installed['append']
+
+        written = []
+
+        def tracking_open(path, mode='r', *a, **k):
+            if 'w' in mode:
+                written.append(path)
+            return open(path, mode, *a, **k)
+
+        chronicle.open = tracking_open      # shadows the builtin inside chronicle only
+        chron_dir = {}
+
+        def app(entry):
+            # the real chronicle.append (validation + journal file) on a scratch
+            # journal; what the recorder keeps is what was read back from disk
+            import json
+            saved = dawgie.context.data_dbs
+            pid = os.getpid()
+            if pid not in chron_dir:
+                chron_dir[pid] = os.path.join(common.scratch_root(), 'chron-%d' % pid)
+            dawgie.context.data_dbs = chron_dir[pid]
+            del written[:]
+            try:
+                real_append(entry)
+                for fn in written:
+                    with open(fn, 'rt', encoding='utf-8') as fh:
+                        w.chron.extend(json.load(fh))
+                    os.unlink(fn)   # directories stay: cheaper
+            finally:
+                dawgie.context.data_dbs = saved
+
+        chronicle.append = app
         if getattr(self, 'real_db', False):
             # store tier: the real shelve store answers
             dawgie.db.targets = _installed['targets']
